@@ -472,9 +472,9 @@ func init() {
 		Exhaustive: []string{"all call trees with <= 5 calls over {Int64, String, object, array}"},
 		Plan: func(tier string) []core.Lane {
 			if tier == "thorough" {
-				return []core.Lane{{Lane: "plain", Cases: 200000, Shards: 16, TimeoutS: 3600}}
+				return []core.Lane{{Lane: "plain", Cases: 4000000, Shards: 16, TimeoutS: 3600}}
 			}
-			return []core.Lane{{Lane: "plain", Cases: 8000, Shards: 16, TimeoutS: 1200}}
+			return []core.Lane{{Lane: "plain", Cases: 40000, Shards: 16, TimeoutS: 1200}}
 		},
 		Case: c15Case,
 	})
